@@ -219,10 +219,13 @@ class World(object):
     def build(self, ai=0):
         addr = self.addrs[ai]
         p = self.fac.buildProtocol(addr)
-        if self.eng.symbolic and ai not in self._seen_addr:
+        if self.eng.symbolic:
+            # identifier-keyed containers must compare keys symbolically; whatever container the factory
+            # provides for this address (kept from before or freshly made) is wrapped, contents preserved
             for w in (self.fac.windowPublish, self.fac.windowPubRelease, self.fac.windowPubRx,
                       self.fac.windowSubscribe, self.fac.windowUnsubscribe):
-                w[addr] = px.SymDict(w[addr])
+                if isinstance(w.get(addr), dict):
+                    w[addr] = px.SymDict(w[addr])
         self._seen_addr.add(ai)
         c = Conn(self, len(self.conns), ai, addr)
         c.p = p
